@@ -9,6 +9,7 @@
 //        -> {"beh":i,"ok":true|false}
 //   {"op":"run","mode":M,"okl":path | "module":path.so,"kernels":[{"name":k,"runs":[[arg,...],...]}]}
 //        arg = {"t":"int"|"long","v":n}  |  {"t":"int*"|"long*","n":cells}   (zero-filled, returned)
+//              pointer options: "fill":"iota" (cell i holds i+1), "ret":false (not returned)
 //        Serial/OpenMP: the kernel is built by the real JIT (device.buildKernel) and run;
 //        cuda/hip/opencl/metal/dpcpp: the emulated module (harness/emu) is loaded and the real
 //        generated launcher + device function are executed.
@@ -80,7 +81,7 @@ static std::string doTranslate(const mj::Value &c) {
   return std::string("\"ok\":") + (ok ? "true" : "false") + ",\"err\":" + (err.empty() ? "null" : mj::quote(err.substr(0, 400)));
 }
 
-struct ArgBuf { std::string t; size_t n; occa::memory mem; long long v; };
+struct ArgBuf { std::string t; size_t n; occa::memory mem; long long v; bool ret; };
 
 template <class T> static std::string sparse(occa::memory &m, size_t n) {
   std::vector<T> h(n);
@@ -154,6 +155,13 @@ static std::string doRun(const mj::Value &c) {
             b.n = (size_t) args[a]["n"].i();
             const size_t es = (b.t == "int*") ? sizeof(int) : sizeof(long);
             std::vector<char> zero(b.n * es, 0);
+            b.ret = !(args[a].has("ret") && !args[a]["ret"].b);
+            if (args[a].has("fill") && args[a]["fill"].str() == "iota") {   // cell i holds i + 1
+              for (size_t i = 0; i < b.n; ++i) {
+                if (es == sizeof(int)) ((int *) zero.data())[i] = (int) (i + 1);
+                else ((long *) zero.data())[i] = (long) (i + 1);
+              }
+            }
             b.mem = dev.malloc(b.n * es, zero.data());
             b.mem.setDtype(b.t == "int*" ? occa::dtype::int_ : occa::dtype::long_);
             kargs.push_back(occa::kernelArg(b.mem));
@@ -177,7 +185,7 @@ static std::string doRun(const mj::Value &c) {
       out += "{\"out\":[";
       bool firstBuf = true;
       for (auto &b : bufs) {
-        if (b.t != "int*" && b.t != "long*") continue;
+        if ((b.t != "int*" && b.t != "long*") || !b.ret) continue;
         if (!firstBuf) out += ",";
         firstBuf = false;
         out += (b.t == "int*") ? sparse<int>(b.mem, b.n) : sparse<long>(b.mem, b.n);
